@@ -1,12 +1,12 @@
 (* Property C15 — statements only.  Every theorem is closed by [exact] of a lemma from
-   Proofs/Tablets_proofs.v; the statements are pinned again in /verif/pins/C15.v.
+   Proofs/Tablets_proofs.v, Proofs/TabletsPayload_proofs.v or Proofs/C15_d4_proofs.v; the statements are pinned again in /verif/pins/C15.v.
 
    [run hist] executes the model of tablets.rs on a history of Learn (payload received) and
    Maintain (TabletsInfo::perform_maintenance) events, starting from TabletsInfo::new();
    [None] would be a Rust panic.  [Forall op_i64 hist] says that the two bounds of every payload
    are i64 values (they are decoded from 8 bytes). *)
 From SV Require Import Base.Prelude Base.Bytes Model.Cql Model.Tablets Model.TabletsPayload
-  Proofs.Tablets_proofs Proofs.TabletsPayload_proofs.
+  Proofs.Tablets_proofs Proofs.TabletsPayload_proofs Proofs.C15_d4_proofs.
 Open Scope Z_scope.
 
 (* the code never panics: Vec::drain(left_idx..right_idx) always gets left_idx <= right_idx *)
@@ -476,6 +476,93 @@ Example C15_ex_refresh :
   op_i64b (Learn (1, 1)%N (2 ^ 63) 0 [] []) = false /\ op_i64b (Learn (1, 1)%N (- 2 ^ 63) (2 ^ 63 - 1) [] []) = true.
 Proof. repeat split; vm_compute; reflexivity. Qed.
 
+(* ---- deepening round 4: characterisations of the extracted functions the driver evaluates ---- *)
+
+(* tablet_for_token on ANY list with the invariant (the implementation's printed list is judged by ranges_okb,
+   C15_ranges_okb_iff): it answers with t iff t is in the list and covers the token, with nothing iff no tablet
+   covers it, and at most one tablet covers a token -- without reference to histories or the specification *)
+Theorem C15_tablet_for_token_iff : forall l tok, tablets_inv l ->
+  (forall t, tablet_for_token l tok = Some t <-> In t l /\ t_first t <= tok <= t_last t) /\
+  (tablet_for_token l tok = None <-> forall t, In t l -> ~ (t_first t <= tok <= t_last t)) /\
+  (forall t1 t2, In t1 l -> In t2 l -> t_first t1 <= tok <= t_last t1 -> t_first t2 <= tok <= t_last t2 -> t1 = t2).
+Proof. exact tablet_lookup_char. Qed.
+
+(* C15_payload as an EQUIVALENCE, with the two refusal classes and the link to the specification's predicate *)
+Theorem C15_payload_iff : forall a b raw, i64_ok a -> i64_ok b ->
+  (forall f l r, payload_check a b raw = Ok (f, l, r) <->
+     a < b /\ f = a + 1 /\ l = b /\ Forall (fun hs => 0 <= snd hs) raw /\
+     r = map (fun hs => (fst hs, Z.to_N (snd hs))) raw) /\
+  (payload_check a b raw = Err WrongTokenRange <-> b <= a) /\
+  (payload_check a b raw = Err ShardNum <-> a < b /\ Exists (fun hs => snd hs < 0) raw) /\
+  (spec_payload_ok a b raw = true <-> exists x, payload_check a b raw = Ok x).
+Proof. exact payload_check_iff. Qed.
+
+(* the driver's gate (error token-out-of-i64) IS the premise of the history theorems *)
+Theorem C15_hist_i64b_iff : forall h, forallb op_i64b h = true <-> Forall op_i64 h.
+Proof. exact hist_i64b_iff. Qed.
+
+(* what refresh_op (ClusterState::perform_tablets_maintenance) hands to TabletsInfo::perform_maintenance:
+   removed = hosts of old nodes with no new node of that host; recreated = new nodes whose host had a
+   DIFFERENT Node object before; current = the new nodes *)
+Theorem C15_refresh_derivation : forall kss old new,
+  exists rm rc, refresh_op kss old new = Maintain kss rm new rc /\
+    (forall h, In h rm <-> (exists o, In o old /\ host o = h) /\ (forall n, In n new -> host n <> h)) /\
+    (forall n, In n rc <-> In n new /\ exists o, In o old /\ host o = host n /\ o <> n).
+Proof. exact refresh_op_char. Qed.
+
+(* Token::new: stays inside i64, never i64::MIN, identity elsewhere, i64::MIN -> i64::MAX, idempotent *)
+Theorem C15_token_new : forall v, i64_ok v ->
+  i64_ok (token_new v) /\ i64_min < token_new v /\
+  (v <> i64_min -> token_new v = v) /\ token_new i64_min = i64_max /\ token_new (token_new v) = token_new v.
+Proof. exact token_new_char. Qed.
+
+(* ... and the normalisation matters: after EVERY history no table answers the raw token i64::MIN *)
+Theorem C15_min_token_unanswered : forall hist s k,
+  Forall op_i64 hist -> run hist = Some s -> lookup_tablet s k i64_min = None /\ lookup s k i64_min = None.
+Proof. exact min_token_unanswered. Qed.
+
+(* table presence after a maintenance call WITHOUT the unique-keyspace-names premise of C15_present /
+   C15_maintain_tables: kept by the retain closure, or (re)created for a table/view of ANY listed
+   tablet keyspace description *)
+Theorem C15_maintain_presence : forall h kss removed current recreated s s' k,
+  Forall op_i64 h -> run h = Some s -> step s (Maintain kss removed current recreated) = Some s' ->
+  is_some (find_table s' k) =
+  (is_some (find_table s k) && keep_table kss k) || existsb (fun k' => tkey_eqb k' k) (schema_tables kss).
+Proof. exact maintain_presence. Qed.
+
+(* the NoDup premise of C15_present / C15_maintain_tables is NECESSARY in the model: a duplicated keyspace name *)
+Example C15_ex_dup_keyspace :
+  let kss := [mkKs 1 false [] []; mkKs 1 true [1%N] []] in
+  exists s', step info_empty (Maintain kss [] [] []) = Some s' /\
+    keep_table kss (1, 1)%N = false /\ is_some (find_table s' (1, 1)%N) = true /\
+    ~ NoDup (map ks_name kss).
+Proof. exact maintain_presence_dup_witness. Qed.
+
+Example C15_ex_round4 :
+  let t f l := mkTablet f l (mkReps [] []) None in
+  (* C15_tablet_for_token_iff: hit, gap, beyond the end *)
+  tablet_for_token [t 0 4; t 6 9] 6 = Some (t 6 9) /\ tablet_for_token [t 0 4; t 6 9] 5 = None /\
+  tablet_for_token [t 0 4; t 6 9] 10 = None /\
+  (* C15_payload_iff: both refusal classes have inhabitants *)
+  Exists (fun hs : N * Z => snd hs < 0) [(7%N, 0); (8%N, -1)] /\ payload_check 0 1 [(7%N, 0); (8%N, -1)] = Err ShardNum /\
+  (* C15_hist_i64b_iff: accepting and rejecting *)
+  forallb op_i64b [Learn (1, 1)%N (- 2 ^ 63) (2 ^ 63 - 1) [] []; Maintain [] [] [] []] = true /\
+  forallb op_i64b [Learn (1, 1)%N 0 (2 ^ 63) [] []] = false /\
+  (* C15_refresh_derivation: node 2 removed, node 1 recreated, node 3 new (neither) *)
+  refresh_op [] [ex_n1; ex_n2] [ex_n1'; mkNode 3 0 None] = Maintain [] [2%N] [ex_n1'; mkNode 3 0 None] [ex_n1'] /\
+  (* C15_token_new *)
+  token_new (- 2 ^ 63) = 2 ^ 63 - 1 /\ token_new (- 2 ^ 63 + 1) = - 2 ^ 63 + 1 /\ token_new 5 = 5 /\
+  (* C15_maintain_presence: an unknown table of the schema is created, a known table outside it is dropped *)
+  (exists s s', run [Learn (1, 2)%N 0 10 [] []] = Some s /\
+     step s (Maintain [mkKs 1 true [1%N] []] [] [] []) = Some s' /\
+     is_some (find_table s (1, 2)%N) = true /\ is_some (find_table s' (1, 2)%N) = false /\
+     is_some (find_table s (1, 1)%N) = false /\ is_some (find_table s' (1, 1)%N) = true).
+Proof.
+  cbn zeta. repeat split; try (vm_compute; reflexivity).
+  - right. left. cbn. lia.
+  - eexists. eexists. split; [vm_compute; reflexivity|]. repeat split; vm_compute; reflexivity.
+Qed.
+
 Print Assumptions C15_no_panic.
 Print Assumptions C15_inv.
 Print Assumptions C15_every_step.
@@ -508,3 +595,10 @@ Print Assumptions C15_learn_tables.
 Print Assumptions C15_maintain_tables.
 Print Assumptions C15_payload_roundtrip.
 Print Assumptions C15_learn_is_bytes.
+Print Assumptions C15_tablet_for_token_iff.
+Print Assumptions C15_payload_iff.
+Print Assumptions C15_hist_i64b_iff.
+Print Assumptions C15_refresh_derivation.
+Print Assumptions C15_token_new.
+Print Assumptions C15_min_token_unanswered.
+Print Assumptions C15_maintain_presence.
